@@ -4,6 +4,8 @@ import json, os, subprocess
 ROOT = os.path.dirname(os.path.dirname(os.path.abspath(__file__)))
 TECH = "symbolic evaluation of the real Python source (own AST->z3 evaluator py2smt) + SMT (z3 5.1; cvc5/z3-4.8 cross-check in thorough tier), counterexamples replayed on the real code"
 CLAIMED = {
+    "C19": ("2. C19", "Reactive DCC: four consecutive update() calls from an arbitrary state with an arbitrary real CBR, for both Annex A tables (typed in independently): one step towards the band state per evaluation, outputs = Annex A row, band state reached within four, CBR outside [0,1] rejected. Adaptive DCC: update() from arbitrary stored CBR_ITS-S/delta against clause 5.4 steps 1-5, stored = returned, within [delta_min, delta_max] (default parameters; all parameters symbolic in the thorough tier). Gate keeper: admit_packet / update_delta / is_open one step from an arbitrary state under the invariant 25 ms <= t_go - t_pg <= 1 s: B.1, B.2, admit iff open, 25 ms spacing, reopening within 1 s, invariant preserved.",
+            "Real arithmetic with the code's float literals as exact rationals: double rounding in the LIMERIC filter and at band boundaries is outside the claim; histories are covered by induction over the stated invariants."),
     "C06": ("2. C06", "Duplicate-packet list as one inductive step from an arbitrary valid ring (length/fill/SN symbolic); every receive handler that forwards (TSB, GBC simple+CBF, GAC, GUC, LS request, LS reply) on a symbolic frame against a symbolic table: own-address and duplicate packets produce no effect, at most one indication and one (immediate or buffered) copy, copy = received packet except RHL-1 (DE PV only refreshed by a strictly newer neighbour PV), nothing at RHL 0/1; CBF buffer insert/cancel/expiry from an arbitrary buffer state; duplicate overheard during contention drops the buffered copy.",
             "Received packets are assumed well-formed in their reserved bits (forwarders normalise them); table answers follow a contract (arbitrary entries, may report duplicate) and counterexamples are replayed on the real Router with a scripted table giving the model's answers; flood termination is the hand-written composition of RHL decrease + duplicate list."),
     "C08": ("2. C08", "Wrap-around timestamp order over all pairs of 32-bit values (irreflexive, antisymmetric, total, agreement with real time, derived operators, transitivity in a window); update_position_vector, refresh_table (arbitrary clock, incl. timestamps ahead of the truncated clock), every new_*_packet handler from an arbitrary table pre-state (source known/unknown, arbitrary entry, one other entry) and get_neighbours are evaluated symbolically against a serial-arithmetic oracle: newest PV stored, neighbour-flag rules per packet type, other entries untouched.",
